@@ -2,8 +2,10 @@ package c20
 
 import (
 	"fmt"
+	"runtime"
 	"strconv"
 	"strings"
+	"sync/atomic"
 	"testing"
 
 	"pgregory.net/rapid"
@@ -16,7 +18,7 @@ func TestMain(m *testing.M) { vk.Main(m) }
 // called with every argument in Args (several calls catch state kept between calls).
 type Scenario struct {
 	N      int     `json:"n"`
-	Family string  `json:"family"` // "trace" | "affine" | "table" | "anynil" | "reentrant" | "panics"
+	Family string  `json:"family"` // "trace" | "affine" | "table" | "anynil" | "reentrant" | "panics" | "recursive" | "parked"
 	A      []int   `json:"a"`      // affine: x -> (A*x+B) mod P ; trace: tag index
 	B      []int   `json:"b"`
 	Table  [][]int `json:"table,omitempty"` // table family: f_i(x) = Table[i][x mod M]
@@ -35,7 +37,7 @@ func gen(t *rapid.T) Scenario {
 	}
 	for i := 0; i < sc.N; i++ {
 		switch sc.Family {
-		case "trace", "anynil", "reentrant", "panics":
+		case "trace", "anynil", "reentrant", "panics", "recursive", "parked":
 			sc.A = append(sc.A, rapid.IntRange(0, 25).Draw(t, "tag"))
 		case "affine":
 			sc.A = append(sc.A, rapid.IntRange(2, prime-1).Draw(t, "a"))
@@ -120,6 +122,84 @@ func Run(sc Scenario) string {
 				}
 			}
 		}
+	case "recursive":
+		// one stage calls the composed function itself, to a depth of 1300..2100: ordinary recursion through a pipeline
+		at := sc.A[0] % sc.N
+		depth := 1300 + 100*(sc.A[len(sc.A)-1]%9)
+		var h func(int) int
+		fs := make([]func(int) int, sc.N)
+		for i := range fs {
+			fs[i] = func(x int) int {
+				calls[i]++
+				if i == at && x > 0 {
+					return 1 + h(x-1)
+				}
+				return x
+			}
+		}
+		h = compose(fs)
+		if got := h(depth); got != depth {
+			return fmt.Sprintf("Pipe%d with stage %d recursing through the composed function %d levels deep: got %d, want %d", sc.N, at+1, depth, got, depth)
+		}
+		for i, c := range calls {
+			want := depth + 1
+			if c != want {
+				return fmt.Sprintf("Pipe%d recursing %d levels deep: f_%d was applied %d times, want %d", sc.N, depth, i+1, c, want)
+			}
+		}
+	case "parked":
+		// many evaluations of ONE composed function are in flight at the same time (their first stage waits), then one more
+		// call is made: evaluations are independent of each other however many there are
+		release := make(chan struct{})
+		var parked atomic.Int32
+		fs := make([]func(int) int, sc.N)
+		for i := range fs {
+			fs[i] = func(x int) int {
+				if i == 0 && x < 0 {
+					parked.Add(1)
+					<-release
+				}
+				return x + i
+			}
+		}
+		h := compose(fs)
+		const inFlight = 1100
+		results := make(chan int, inFlight)
+		for k := 0; k < inFlight; k++ {
+			go func() {
+				defer func() {
+					if r := recover(); r != nil {
+						results <- -1 << 40
+					}
+				}()
+				results <- h(-1)
+			}()
+		}
+		for parked.Load() < inFlight {
+			runtime.Gosched()
+		}
+		sum := 0
+		for i := 0; i < sc.N; i++ {
+			sum += i
+		}
+		var msg string
+		func() {
+			defer func() {
+				if r := recover(); r != nil {
+					msg = fmt.Sprintf("Pipe%d with %d evaluations in flight: one more call panicked: %v", sc.N, inFlight, r)
+				}
+			}()
+			if got := h(5); got != 5+sum {
+				msg = fmt.Sprintf("Pipe%d with %d evaluations in flight: h(5) = %d, want %d", sc.N, inFlight, got, 5+sum)
+			}
+		}()
+		close(release)
+		for k := 0; k < inFlight; k++ {
+			if r := <-results; r != -1+sum && msg == "" {
+				msg = fmt.Sprintf("Pipe%d: one of %d evaluations that were in flight together returned %d, want %d", sc.N, inFlight, r, -1+sum)
+			}
+		}
+		return msg
 	case "panics":
 		// one stage (position A[0] mod N) panics: f_N(...f_k(...)...) then panics with that very value, the stages before it
 		// have been applied once, the stages after it not at all - exactly what the nested application does
@@ -250,7 +330,7 @@ func nontrivial(sc Scenario) bool {
 	for i := 0; i < sc.N; i++ {
 		var k string
 		switch sc.Family {
-		case "trace", "anynil", "reentrant", "panics":
+		case "trace", "anynil", "reentrant", "panics", "recursive", "parked":
 			k = "t" // trace tags carry the position, always distinct
 			k += strconv.Itoa(i)
 		case "affine":
@@ -339,7 +419,7 @@ func FuzzC20(f *testing.F) {
 // TestC20Each covers every N with every family deterministically (no N can be missed by chance).
 func TestC20Each(t *testing.T) {
 	for n := 2; n <= 20; n++ {
-		for _, fam := range []string{"trace", "affine", "table", "anynil", "reentrant", "panics"} {
+		for _, fam := range []string{"trace", "affine", "table", "anynil", "reentrant", "panics", "recursive", "parked"} {
 			sc := Scenario{N: n, Family: fam, Args: []int{3, 999983, 4, 4}}
 			for i := 0; i < n; i++ {
 				sc.A = append(sc.A, 2+i)
